@@ -19,6 +19,25 @@ func Matrix(rows, cols int) [][]frontend.Variable {
 	return m
 }
 
+// keep / unchanged: a gadget receives its slices by reference; whatever it computes, the caller's
+// wires must be the same afterwards (the caller may use them again).  Every harness circuit below
+// asserts that after the gadget call.
+func keep(xs []frontend.Variable) []frontend.Variable { return append([]frontend.Variable{}, xs...) }
+
+func keep2(xss [][]frontend.Variable) [][]frontend.Variable {
+	out := make([][]frontend.Variable, len(xss))
+	for i := range xss {
+		out[i] = keep(xss[i])
+	}
+	return out
+}
+
+func unchanged(api frontend.API, before, after []frontend.Variable) {
+	for i := range before {
+		api.AssertIsEqual(before[i], after[i])
+	}
+}
+
 // InsertionProofCircuit: prover.InsertionProof with the result asserted equal to Post.
 type InsertionProofCircuit struct {
 	Start, Pre, Post frontend.Variable
@@ -28,9 +47,14 @@ type InsertionProofCircuit struct {
 }
 
 func (c *InsertionProofCircuit) Define(api frontend.API) error {
+	ids, proofs := keep(c.Ids), keep2(c.Proofs)
 	root := abstractor.Call(api, prover.InsertionProof{StartIndex: c.Start, PreRoot: c.Pre, IdComms: c.Ids,
 		MerkleProofs: c.Proofs, BatchSize: c.Batch, Depth: c.Depth})
 	api.AssertIsEqual(root, c.Post)
+	unchanged(api, ids, c.Ids)
+	for i := range proofs {
+		unchanged(api, proofs[i], c.Proofs[i])
+	}
 	return nil
 }
 
@@ -47,9 +71,15 @@ type DeletionProofCircuit struct {
 }
 
 func (c *DeletionProofCircuit) Define(api frontend.API) error {
+	idxs, ids, proofs := keep(c.Idxs), keep(c.Ids), keep2(c.Proofs)
 	root := abstractor.Call(api, prover.DeletionProof{DeletionIndices: c.Idxs, PreRoot: c.Pre, IdComms: c.Ids,
 		MerkleProofs: c.Proofs, BatchSize: c.Batch, Depth: c.Depth})
 	api.AssertIsEqual(root, c.Post)
+	unchanged(api, idxs, c.Idxs)
+	unchanged(api, ids, c.Ids)
+	for i := range proofs {
+		unchanged(api, proofs[i], c.Proofs[i])
+	}
 	return nil
 }
 
@@ -145,7 +175,9 @@ func (c *ToReducedCircuit) Define(api frontend.API) error {
 type ReducedCheckCircuit struct{ In []frontend.Variable }
 
 func (c *ReducedCheckCircuit) Define(api frontend.API) error {
+	in := keep(c.In)
 	abstractor.CallVoid(api, prover.ReducedModRCheck{Input: c.In})
+	unchanged(api, in, c.In)
 	return nil
 }
 
@@ -156,7 +188,12 @@ type FromBinaryBECircuit struct {
 }
 
 func (c *FromBinaryBECircuit) Define(api frontend.API) error {
+	in := keep(c.In)
 	v := abstractor.Call(api, prover.FromBinaryBigEndian{Variable: c.In})
 	api.AssertIsEqual(v, c.Out)
+	// a second recomposition of the same bit string gives the same number, and the bits are untouched
+	v2 := abstractor.Call(api, prover.FromBinaryBigEndian{Variable: c.In})
+	api.AssertIsEqual(v2, c.Out)
+	unchanged(api, in, c.In)
 	return nil
 }
